@@ -992,8 +992,9 @@ func compareLogicXEQ(left r.Element, right r.Element) (bool, error) {
 			if len(vla) != len(vra) {
 				return false, nil
 			}
-			// cmp each item
-			for idx := range vla {
+			// cmp each item - in the left dictionary's own key order, so that the
+			// outcome (false, or the error of an incomparable pair) is the same on every run
+			for _, idx := range vl.GetKeyOrder() {
 				// ensure the key exists on vr
 				vrr, ok := vra[idx]
 				if !ok {
